@@ -127,3 +127,33 @@ pub proof fn lemma_val_zero_ext(s: Seq<u64>, t: Seq<u64>)
     lemma_valp_zeros(z, z.len());
     assert(pw(s.len()) * 0 == 0) by (nonlinear_arith);
 }
+
+/// x = 2^t * odd: divisible by 2^s exactly for s <= t
+pub proof fn lemma_tz_round(m: nat, t: nat, s: nat)
+    requires m % vstd::arithmetic::power2::pow2(t) == 0, bitv(m, t)
+    ensures (m % vstd::arithmetic::power2::pow2(s) == 0) == (s <= t)
+{
+    vstd::arithmetic::power2::lemma_pow2_pos(t);
+    vstd::arithmetic::power2::lemma_pow2_pos(s);
+    let y = m / vstd::arithmetic::power2::pow2(t);
+    vstd::arithmetic::div_mod::lemma_fundamental_div_mod(m as int, vstd::arithmetic::power2::pow2(t) as int);
+    assert(m == vstd::arithmetic::power2::pow2(t) * y);
+    if s <= t {
+        vstd::arithmetic::power2::lemma_pow2_adds(s, (t - s) as nat);
+        assert(m == (vstd::arithmetic::power2::pow2((t - s) as nat) * y) * vstd::arithmetic::power2::pow2(s)) by (nonlinear_arith) requires m == vstd::arithmetic::power2::pow2(t) * y, vstd::arithmetic::power2::pow2(t) == vstd::arithmetic::power2::pow2(s) * vstd::arithmetic::power2::pow2((t - s) as nat);
+        vstd::arithmetic::div_mod::lemma_mod_multiples_basic((vstd::arithmetic::power2::pow2((t - s) as nat) * y) as int, vstd::arithmetic::power2::pow2(s) as int);
+    } else if m % vstd::arithmetic::power2::pow2(s) == 0 {
+        let z = m / vstd::arithmetic::power2::pow2(s);
+        vstd::arithmetic::div_mod::lemma_fundamental_div_mod(m as int, vstd::arithmetic::power2::pow2(s) as int);
+        vstd::arithmetic::power2::lemma_pow2_adds(t, (s - t) as nat);
+        // vstd::arithmetic::power2::pow2(t) * y == vstd::arithmetic::power2::pow2(t) * vstd::arithmetic::power2::pow2(s - t) * z  ==>  y == vstd::arithmetic::power2::pow2(s - t) * z, even
+        assert(y == vstd::arithmetic::power2::pow2((s - t) as nat) * z) by (nonlinear_arith)
+            requires vstd::arithmetic::power2::pow2(t) * y == vstd::arithmetic::power2::pow2(s) * z, vstd::arithmetic::power2::pow2(s) == vstd::arithmetic::power2::pow2(t) * vstd::arithmetic::power2::pow2((s - t) as nat), vstd::arithmetic::power2::pow2(t) > 0;
+        vstd::arithmetic::power2::lemma_pow2_unfold((s - t) as nat);
+        let h = vstd::arithmetic::power2::pow2((s - t - 1) as nat);
+        assert(y == 2 * (h * z)) by (nonlinear_arith) requires y == vstd::arithmetic::power2::pow2((s - t) as nat) * z, vstd::arithmetic::power2::pow2((s - t) as nat) == 2 * h;
+        vstd::arithmetic::div_mod::lemma_mod_multiples_basic((h * z) as int, 2);
+        assert(false);
+    }
+}
+
